@@ -11,8 +11,10 @@ package server
 // ---- interface contracts (assumed at call sites; every implementation in the repository is checked
 // ---- against the frame by a generated "refine" obligation) ----
 //@ func ServerProtocol.ProcessLockResultCommand
+//@   requires C03.result-code,C13.result-code: result <= protocol.RESULT_LOCK_ACK_WAITING
 //@   preserves F_server_Lock_, F_server_LockManager, F_server_LockDB_, F_server_LockQueue_, F_server_LongWaitLock, F_server_MillisecondWaitLock, F_server_FastKeyValue_, F_server_PriorityMutex_, F_server_Aof, F_server_Arbiter, F_server_Replication, F_protocol_protobuf_, F_server_Subscribe, F_server_Publish, F_server_LockData_, F_protocol_LockDBState_, F_protocol_LockCommand_, E_Pserver_, E_LJPserver_, E_int32, E_server_, MH_, MV_
 //@ func ServerProtocol.ProcessLockResultCommandLocked
+//@   requires C03.result-code,C13.result-code: result <= protocol.RESULT_LOCK_ACK_WAITING
 //@   preserves F_server_Lock_, F_server_LockManager, F_server_LockDB_, F_server_LockQueue_, F_server_LongWaitLock, F_server_MillisecondWaitLock, F_server_FastKeyValue_, F_server_PriorityMutex_, F_server_Aof, F_server_Arbiter, F_server_Replication, F_protocol_protobuf_, F_server_Subscribe, F_server_Publish, F_server_LockData_, F_protocol_LockDBState_, F_protocol_LockCommand_, E_Pserver_, E_LJPserver_, E_int32, E_server_, MH_, MV_
 //@ func ServerProtocol.FreeLockCommand
 //@   preserves F_server_Lock_, F_server_LockManager, F_server_LockDB_, F_server_LockQueue_, F_server_LongWaitLock, F_server_MillisecondWaitLock, F_server_FastKeyValue_, F_server_PriorityMutex_, F_server_Aof, F_server_Arbiter, F_server_Replication, F_protocol_protobuf_, F_server_Subscribe, F_server_Publish, F_server_LockData_, F_protocol_LockDBState_, F_protocol_LockCommand_, E_Pserver_, E_LJPserver_, E_int32, E_server_, MH_, MV_
